@@ -309,8 +309,10 @@ func runC12Grid(args []string) error {
 			}
 		}
 	}
-	// (C) ungated results: every goroutine count gives the bytes of g = 1 (run under -race by the check)
-	for _, l := range lens {
+	// (C) ungated results: every goroutine count gives the bytes of g = 1 (run under -race by the check);
+	// beyond the grid: long shards just above multiples of 32 KiB, 64 KiB and 2 MiB (chunked schedulers, wide counters)
+	lensC := append(append([]int{}, lens...), 32770, 32768+14, 65540, 65548, 98312, 131086, 2097152+70)
+	for _, l := range lensC {
 		if !thorough && l > 200 && l%5 != 0 {
 			continue
 		}
